@@ -131,7 +131,10 @@ def W.close (w : W) (disc : Option Int) (arg : CodeArg) (reason : Bool) : W × O
   | .none => go w 1000
 where
   go (w : W) (code : Int) : W × Option Exc :=
-    if w.isClosed disc then (w, none) else
+    if w.isClosed disc then
+      -- nothing is sent; a disconnect known only through the flag is recorded in the state (as `_send` does)
+      (if w.st == .closed then w else { w with st := .closed, closeCode := disc }, none)
+    else
     let (w, ok) := w.asgiSend (.close code ((reason || w.reasonCodes.contains code) && w.supReason))
     if ok then ({ w with st := .closed, closeCode := some code }, none) else (w, some w.fault.raw)
 
